@@ -57,9 +57,18 @@ theorem inv_newLabel (s : State) (h : Inv s) : Inv (newLabel s).1 := by
     intro i e he; rw [List.getElem?_append_left (getElem?_lt he)]; exact he
   refine ⟨h.cur, h.fmts, h.inb, h.disj, ?_, ?_, h.glob, ?_⟩
   · intro g hg
-    refine status_mono (s := s) ?_ ?_ rfl (h.status g hg)
+    refine status_mono (s := s) ?_ ?_ ?_ rfl (h.status g hg)
     · rintro (⟨fx, h1, h2⟩ | h1)
       · exact .inl ⟨fx, hget _ _ h1, h2⟩
+      · exact .inr h1
+    · rintro (⟨fx, h1, h2⟩ | h1)
+      · replace h1 : (s.labels ++ [LabelEntry.unbound []])[g.label]? = some (LabelEntry.unbound fx) := h1
+        by_cases hlt : g.label < s.labels.length
+        · rw [List.getElem?_append_left hlt] at h1; exact .inl ⟨fx, h1, h2⟩
+        · rw [List.getElem?_append_right (by omega)] at h1
+          cases hx : g.label - s.labels.length with
+          | zero => rw [hx] at h1; simp at h1; subst h1; cases h2
+          | succ k => rw [hx] at h1; simp at h1
       · exact .inr h1
     · intro sec off hb; exact hget _ _ hb
   · intro l fx hl
